@@ -118,11 +118,14 @@ func run(c *core.Ctx) {
 			sizes = append(sizes, n)
 		}
 		sizes = append(sizes, 511, 512, 513, 1023, 1024, 1025)
-		c.Res.Bound = "nesting depth 1..300, 511..513, 1023..1025 in 13 layouts; arguments of n and 37 n bytes; n statements of one kind; multi-line strings opening at column 1..140 with continuation lines indented around that column"
+		c.Res.Bound = "nesting depth 1..300, 511..513, 1023..1025 in 13 layouts; arguments of n and 37 n bytes; n statements of one kind; multi-line strings opening at column 1..140 with continuation lines indented around that column; every statement keyword, near-miss spellings of pattern and pattern-like extension keywords with 10 argument forms around backslash escapes"
 		for _, n := range sizes {
 			texts := deepTexts(n)
 			if n <= 140 {
 				texts = append(texts, quoteTexts(n)...)
+			}
+			if n == 1 {
+				texts = append(texts, lexspace.KeywordTexts()...) // every keyword with escapes only a pattern may keep
 			}
 			for _, text := range texts {
 				if c.Expired() {
